@@ -78,11 +78,18 @@ def install(E):
         # smallest normal: subnormal rounding adds an absolute error
         tiny = Fraction(1, 2 ** 149) if bits == 32 else Fraction(1, 2 ** 1074)
         err = err + tiny
+        # rounding is a function: the same exact expression rounds to the same value (memo per path state)
+        memo = st.__dict__.setdefault('flmemo', {})
+        key = (e.get_id(), bits)
+        hit = memo.get(key)
+        if hit is not None: return hit[1]
         s.fresh += 1
         r = z3.Real('fl!%d' % s.fresh)
         s.add_pc(st, z3.And(r - e <= rv(err), e - r <= rv(err)))
         s.stats['fp_roundings'] = s.stats.get('fp_roundings', 0) + 1
-        return SF(r, bits, lo - err, hi + err, exact=False, taint=tn)
+        res = SF(r, bits, lo - err, hi + err, exact=False, taint=tn)
+        memo[key] = (e, res)
+        return res
 
     def fbin(s, st, op, a, b, bits):
         ca = not isinstance(a, SF); cb = not isinstance(b, SF)
@@ -109,6 +116,9 @@ def install(E):
             return SF(f(RNE, a.t, b.t), bits, taint=tn)
         # real error model
         if mag(a) is None or mag(b) is None: raise EngineError('real-error mode: operand without magnitude bound')
+        # x + 0, x - 0, 0 + x are exact
+        if op in ('fadd', 'fsub') and b.lo == b.hi == 0: return a
+        if op == 'fadd' and a.lo == a.hi == 0: return b
         if op == 'fadd':
             return rounded(s, st, a.t + b.t, a.lo + b.lo, a.hi + b.hi, bits, tn, a.exact and b.exact)
         if op == 'fsub':
